@@ -36,7 +36,7 @@ def describe(rep):
         rep.func(cls.update_nodes, cls.compute_end_point)
     rep.func(Sweeper.predict, rk.RungeKutta.update_nodes, rk.RungeKutta.compute_end_point, rk.RungeKuttaIMEX.update_nodes, rk.RungeKuttaIMEX.compute_end_point)
     rep.explanation = __doc__
-    rep.rule = 'case = (sweeper, node set, preconditioner, K, end-point mode, step size of the level: 1, 2^-30 or 2^30 at unchanged lambda dt) or a Runge-Kutta class; distinct = different configuration'
+    rep.rule = 'case = (sweeper, node set, preconditioner, K, end-point mode, step size of the level: 1, 2^-30 or 2^30 at unchanged lambda dt) or a Runge-Kutta class (embedded pairs: the order the step-size controller assumes is read from AdaptivityRK in a real controller); distinct = different configuration'
     rep.assume('linear test equation u\' = z u (IMEX: zI u + zE u), u0 = 1, dt = 1 (the step function depends on z = lambda dt only)',
                'denominators 1 - z QD[m,m] non-zero', 'order of the quadrature rule p = coll.order as reported by qmat; RK orders as reported by qmat generators',
                'tolerance 1e-12 on Taylor coefficients (the tables are float64)')
